@@ -7,7 +7,7 @@ from itertools import permutations
 from typing import Iterable, Optional
 
 import networkx as nx
-from clingo import Number
+from clingo import Number, SymbolType
 from clingo.ast import AST, AggregateFunction, ASTType, Function, Sign, SymbolicTerm, Variable
 
 from ngo.dependency import DomainPredicates, RuleDependency
@@ -148,10 +148,8 @@ class InlineTranslator:
                     AggregateFunction.Sum,
                     AggregateFunction.SumPlus,
                 ),
-                AggregateFunction.Sum: (
-                    AggregateFunction.Sum,
-                    AggregateFunction.SumPlus,
-                ),
+                # a negative total is ignored by an outer #sum+
+                AggregateFunction.Sum: (AggregateFunction.Sum,),
                 AggregateFunction.SumPlus: (
                     AggregateFunction.Sum,
                     AggregateFunction.SumPlus,
@@ -162,6 +160,17 @@ class InlineTranslator:
                 result_function = AggregateFunction.Sum
             if atom.function not in good[agg.function]:
                 return atom
+            # an inner #sum+ ignores negative weights, an outer #sum would count them
+            if agg.function == AggregateFunction.SumPlus and atom.function == AggregateFunction.Sum:
+                for elem in agg.elements:
+                    weight = elem.terms[0] if elem.terms else None
+                    if (
+                        weight is None
+                        or weight.ast_type != ASTType.SymbolicTerm
+                        or weight.symbol.type != SymbolType.Number
+                        or weight.symbol.number < 0
+                    ):
+                        return atom
             agga = AggAnalytics(agg)
             # result is actually used in head
             for hv_pos, hv in enumerate(hatom.symbol.arguments):
